@@ -280,9 +280,10 @@ def run_mixed(desc):
                               bucket=('mixed-exc', label))
     # is_magic() and escape() are text-type blind: drive / UNC spellings and every metacharacter, all subsets of the flags that make
     # further characters magic
-    shapes = ['a', 'a*', 'a?', '[a]', 'a\\b', '\\\\server\\share', '\\\\server\\share\\file.txt', 'c:\\temp/file', '//?/c:\\temp', '//server/share/x',
-              'c:/x', 'c:\\', '\\\\?\\UNC\\server\\share\\x', 'a{b', 'a|b', '~a', '!a', '-a', '@(a)', 'a/b', '\\\\server\\sh{a}re', 'c:\\te|mp', '//server/sh*re/x',
-              '\\\\ser*ver\\share', 'a b', '', '\\', 'c:', '\\\\']
+    shapes = ['a', 'a*', 'a?', '[a]', r'a\b', r'a\\b', r'\\server\share', r'\\\\server\\share', r'\\\\server\\share\\file.txt', r'\\\\server\\mount\\',
+              r'c:\temp/file', r'c:\\temp/file', r'//?/c:\\temp', '//server/share/x', 'c:/x', r'c:\\', r'c:\\temp', r'\\\\?\\UNC\\server\\share\\x', 'a{b', 'a|b',
+              '~a', '!a', '-a', '@(a)', 'a/b', r'\\\\server\\sh{a}re', r'c:\\te|mp', '//server/sh*re/x', r'\\\\ser*ver\\share', 'a b', '', '\\', 'c:',
+              r'\\', r'\\\\', r'//server\\share', r'\\\\server/share/x']
     mflags = [G.BRACE, G.SPLIT, G.GLOBTILDE, G.NEGATE, G.MINUSNEGATE, G.EXTGLOB]
     for plat in (G.FORCEWIN, G.FORCEUNIX, 0):
         for i in range(1 << len(mflags)):
